@@ -420,6 +420,11 @@ func runC07(c *Ctx) {
 			lens := map[int]bool{1: true, 2: true, 3: true}
 			first, last, inner, unknown := fullRunes(), fullRunes(), false, ""
 			for _, g := range er.guards {
+				// `last := len(name) - 1` used in a length test: (len - 1) OP k is len OP k+1
+				if m := regexp.MustCompile(`^\(len\(\$0\) - 1\) (==|!=|<|<=|>|>=) (\d+)$`).FindStringSubmatch(g); m != nil {
+					k, _ := strconv.Atoi(m[2])
+					g = fmt.Sprintf("len($0) %s %d", m[1], k+1)
+				}
 				switch {
 				case g == "nonempty($0)":
 				case g == "loopdone($0[1:(len($0) - 1)])":
